@@ -1,7 +1,7 @@
 """GameSpy 2 family (`gs2 <port> <retries> <script>` = two::query)."""
 
 FAMILY = dict(
-    name="gs2", nargs=2, gen="gs2", retries=1, port=0, decode_property="C04", entry="gs2",
+    send_units=1, name="gs2", nargs=2, gen="gs2", retries=1, port=0, decode_property="C04", entry="gs2",
     describe=("0-64 players, 0-8 teams (tables with and without rows, extra columns the client does not know), numplayers "
               "absent / below / equal / above the number of players listed, minplayers, extra variables, replies up to "
               "the 2048-byte receive buffer"),
